@@ -225,6 +225,7 @@ func ReplayFile(c *core.Ctx) bool {
 			Scn     *Scenario `json:"scn"`
 			Variant Variant   `json:"variant"`
 			Big     *BigCase  `json:"big"`
+			Long    *LongCase `json:"long"`
 		} `json:"scenario"`
 	}
 	if err := json.Unmarshal(b, &rf); err != nil {
@@ -237,6 +238,8 @@ func ReplayFile(c *core.Ctx) bool {
 		ReplayAll(c, []Job{{rf.Scenario.Scn, rf.Scenario.Variant}}, &st)
 	case rf.Scenario.Kind == "TypedValuesBig" && rf.Scenario.Big != nil:
 		ReplayBig(c, []BigCase{*rf.Scenario.Big}, &st)
+	case rf.Scenario.Kind == "TypedValuesLong" && rf.Scenario.Long != nil:
+		ReplayLong(c, []LongCase{*rf.Scenario.Long}, &st)
 	default:
 		c.Broken("replay file %s is not a TypedValues scenario", c.Replay)
 	}
